@@ -106,7 +106,16 @@ type Sched struct {
 	PointCnt map[string]int
 
 	panics []string
+
+	// Invariant, if set, is evaluated at every scheduling step (all goroutines
+	// blocked) with the number of parked engine background goroutines.
+	Invariant func(parkedBg int) error
 }
+
+// ErrInvariant is reported when the scheduler invariant fails.
+type ErrInvariant struct{ Msg string }
+
+func (e *ErrInvariant) Error() string { return e.Msg }
 
 // ErrDeadlock is reported when unfinished tasks exist but nothing is runnable.
 type ErrDeadlock struct{ State string }
@@ -278,6 +287,18 @@ func (s *Sched) Run() error {
 				continue
 			}
 			cands = append(cands, t)
+		}
+		if s.Invariant != nil {
+			n := 0
+			for _, t := range s.all {
+				if !t.harness && !t.done && t.parked {
+					n++
+				}
+			}
+			if err := s.Invariant(n); err != nil {
+				s.mu.Unlock()
+				return &ErrInvariant{Msg: err.Error()}
+			}
 		}
 		if len(s.panics) > 0 {
 			p := s.panics[0]
